@@ -405,3 +405,54 @@ def closure(deps, names_):
         out.add(x)
         stack.extend(deps.get(x, ()))
     return out
+
+
+def exec_under(stmts, env, target):
+    """Structured abstract execution of a statement list under a partial environment (names -> python values).
+    Returns (may, must): may/must a statement satisfying `target(stmt)` be executed before the list is left.
+    If-tests decidable with tables.eval_pred are pruned; loops bodies contribute to `may` only; continue / break /
+    return / raise end the path."""
+    from .tables import eval_pred, Undecidable
+
+    def run(body):
+        # returns (may, must, falls_through)
+        may = must = False
+        for s_ in body:
+            if target(s_):
+                may = must = True
+            if isinstance(s_, ast.If):
+                try:
+                    v = bool(eval_pred(s_.test, env))
+                    branches = [s_.body if v else s_.orelse]
+                except (Undecidable, KeyError, TypeError, IndexError):
+                    branches = [s_.body, s_.orelse]
+                res = [run(b) for b in branches]
+                may = may or any(r[0] for r in res)
+                live = [r for r in res if r[2]]
+                if not live:
+                    # every branch leaves: must only if all branches executed it
+                    return may, must or all(r[1] for r in res), False
+                if not must:
+                    must = all(r[1] for r in res)     # branches that leave without it break `must`
+                    if any((not r[2]) and (not r[1]) for r in res):
+                        must = False
+            elif isinstance(s_, (ast.For, ast.While)):
+                r = run(s_.body)
+                may = may or r[0]
+                r2 = run(s_.orelse)
+                may = may or r2[0]
+            elif isinstance(s_, (ast.With,)):
+                r = run(s_.body)
+                may, must = may or r[0], must or r[1]
+                if not r[2]:
+                    return may, must, False
+            elif isinstance(s_, ast.Try):
+                r = run(s_.body)
+                may = may or r[0] or any(run(h.body)[0] for h in s_.handlers)
+                rf = run(s_.finalbody)
+                may, must = may or rf[0], must or rf[1]
+            elif isinstance(s_, (ast.Continue, ast.Break, ast.Return, ast.Raise)):
+                return may, must, False
+        return may, must, True
+    m = run(stmts)
+    return m[0], m[1]
